@@ -76,6 +76,20 @@ partial def evalExprEnv (env : Array GVal) (j : Json) (next : Nat) : Except Stri
         -- `node & [a, b]` merges the node with every element
         let (ns, es) := mergeRaw (lo :: asOperands r)
         build ns es n2
+  | "merge" => do
+      -- `merge(first, *rest)`: the union of all operands (a list operand stands for its elements), ONE model built
+      let mut n := next
+      let mut vals : List GVal := []
+      for e in a.toList.drop 1 do
+        let (v, n') ← evalExpr e n
+        n := n'
+        vals := vals ++ [v]
+      match vals with
+      | [] => throw "TypeError: merge()"
+      | .list _ :: _ => throw "TypeError: list & x"
+      | .op lo :: rest =>
+        let (ns, es) := mergeRaw (lo :: rest.flatMap asOperands)
+        build ns es n
   | _ => throw s!"unknown expr tag {tag}"
 
 def evalExpr (j : Json) (next : Nat) : Except String (GVal × Nat) := evalExprEnv #[] j next
